@@ -47,7 +47,7 @@ def build(ctx):
         if isinstance(a, Tup) and a.items:
             a = a.items[0]
         cur = eng_.read_ref(s_, a)
-        seen.append(eng_.lazy_field(s_, cur, cfg_idx, 'Config'))
+        s_.trace.append(('closure-saw', eng_.lazy_field(s_, cur, cfg_idx, 'Config')))
         return UNIT
     lib.stub(r'FnOnce<\(&mut Session<.*>,\)>>::call_once$|call_once', closure_stub, 'the closure passed to override_config observes session.config and does not assign it')
     outs = ctx.check_outcomes(lib.run(oc, [sref, c1, Tup([], '{closure@harness}')], st), 'override_config')
@@ -57,7 +57,7 @@ def build(ctx):
             continue
         after = lib.read_ref(o.state, sref)
         cfg_after = lib.lazy_field(o.state, after, cfg_idx, 'Config')
-        ctx.prop('override_config/p%d/closure-sees-the-local-config' % i, o.state.pc, z3.BoolVal(not (len(seen) == 1 and isinstance(seen[0], Opaque) and seen[0].ident == 'local-config')),
+        ctx.prop('override_config/p%d/closure-sees-the-local-config' % i, o.state.pc, z3.BoolVal(not ([t[1].ident for t in o.state.trace if t[0] == 'closure-saw' and isinstance(t[1], Opaque)] == ['local-config'])),
                  [], replay_cli(ctx), twin=False)
         ctx.prop('override_config/p%d/session-config-restored' % i, o.state.pc, z3.BoolVal(not (isinstance(cfg_after, Opaque) and cfg_after.ident == 'session-config')),
                  [], replay_cli(ctx), twin=False)
@@ -105,6 +105,10 @@ def build(ctx):
                 ok = isinstance(cfgk, Opaque) and cfgk.ident in allowed
                 ctx.prop('format/n%d/p%d/input%d/formatted-with-its-own-config' % (nfiles, i, k), pc, z3.BoolVal(not ok), [], replay_cli(ctx), twin=False,
                          meta={'config_in_force': repr(cfgk), 'allowed': sorted(map(str, allowed))})
+                if not window_loads:
+                    # skipping the per-file lookup is only right when the *initial* load_config resolved a --config-path
+                    first_load = [t for t in tr if t[0] == 'load_config'][0]
+                    ctx.prop('format/n%d/p%d/input%d/per-file-lookup-skipped-only-with-a-resolved-config-path' % (nfiles, i, k), pc, first_load[3] == 0, [], replay_cli(ctx), twin=False)
                 # error flags seen by this input are at least those left by the previous one (nothing is reset between inputs)
                 if k > 0:
                     prevnew = p['fer'][k - 1][4]
@@ -175,6 +179,19 @@ def cli_runs():
         want = [single[s][0] for s in order]
         if lets != want:
             findings.append('order %s: indentation %r, single-file runs give %r' % (''.join(order), lets, want))
+    import json as _json
+    open(os.path.join(d, 'm1.rs'), 'w').write('fn   a( ) { }\n')
+    open(os.path.join(d, 'm2.rs'), 'w').write('fn   b( ) { }\n')
+    open(os.path.join(d, 'ok.rs'), 'w').write('fn c() {}\n')
+    for order in (['m1.rs', 'ok.rs'], ['m1.rs', 'm2.rs'], ['ok.rs', 'm1.rs']):
+        r = run(['--emit', 'json'] + order)
+        try:
+            names = sorted(os.path.basename(e['name']) for e in _json.loads(r.stdout))
+        except Exception:
+            names = ['<unparsable>']
+        want = sorted(x for x in order if x != 'ok.rs')
+        if names != want:
+            findings.append('--emit json %s reports files %r, the single-file runs report %r' % (' '.join(order), names, want))
     for order in (['a/x.rs', 'bad.rs'], ['bad.rs', 'a/x.rs']):
         r = run(['--check'] + order)
         if r.returncode != 1:
